@@ -551,9 +551,24 @@ class Loader:
         mod = _Instrument().visit(mod)
         ast.fix_missing_locations(mod)
         ns = {}
+        plain = copy.deepcopy(mod) if False else None
         exec(compile(mod, self._path(modname)[0], "exec"), self.modules[modname].__dict__, ns)
         dropped_text = "\n".join(ast.unparse(d) for d in dropped)
-        return ns[node.name + "__tail"], dropped_text, kept_text, hashlib.sha256(kept_text.encode()).hexdigest()[:16]
+        fn_sym = ns[node.name + "__tail"]
+        # the same text compiled without instrumentation in the namespace of the really imported module (CPython + numpy):
+        # the reference of the concretisation cross-check (pyvc.concrete)
+        try:
+            import importlib
+            import sys as _sys
+            if self.repo not in _sys.path:
+                _sys.path.insert(0, self.repo)
+            real_mod = importlib.import_module(modname)
+            ns2 = {}
+            exec(compile(ast.parse(kept_text), self._path(modname)[0], "exec"), real_mod.__dict__, ns2)
+            fn_sym.cpython = ns2[node.name + "__tail"]
+        except Exception:  # noqa: BLE001
+            fn_sym.cpython = None
+        return fn_sym, dropped_text, kept_text, hashlib.sha256(kept_text.encode()).hexdigest()[:16]
 
     def extract_segment(self, modname, qualname, start, stop=None, loop_body=False):
         """A contiguous run of statements of a function as a function of its free variables (mechanical, from the current source).
